@@ -209,12 +209,12 @@ func (f *Fix) Begin(dt time.Duration) (err error) {
 		if e := recover(); e != nil {
 			err = &PanicError{Val: e, Stack: string(debug.Stack())}
 		}
+		if err != nil && blockFailHook != nil {
+			blockFailHook("begin-block", err) // returned error or recovered panic
+		}
 	}()
 	blocksRun++
 	_, err = f.App.BeginBlocker(f.Ctx)
-	if err != nil && blockFailHook != nil {
-		blockFailHook("begin-block", err)
-	}
 	return err
 }
 
@@ -224,15 +224,15 @@ func (f *Fix) End() (err error) {
 		if e := recover(); e != nil {
 			err = &PanicError{Val: e, Stack: string(debug.Stack())}
 		}
+		if err != nil && blockFailHook != nil {
+			blockFailHook("end-block", err) // returned error or recovered panic
+		}
+		if digestOut != nil {
+			// C12: full store digest after every block, compared across OS processes
+			fmt.Fprintf(digestOut, "h=%d err=%v %s\n", f.Height, err != nil, f.StoreDigest())
+		}
 	}()
 	_, err = f.App.EndBlocker(f.Ctx)
-	if err != nil && blockFailHook != nil {
-		blockFailHook("end-block", err)
-	}
-	if digestOut != nil {
-		// C12: full store digest after every block, compared across OS processes
-		fmt.Fprintf(digestOut, "h=%d err=%v %s\n", f.Height, err != nil, f.StoreDigest())
-	}
 	return err
 }
 
